@@ -60,6 +60,10 @@ T["C11"] = ("postcondition contracts on every generate_* return and on simulate(
             "Every generator call (all aliases) and every primary simulate() in shape / dtype (incl. half precisions and both global defaults) / initial-state / parameter-regime "
             "sweeps and re-simulation histories is judged: shape, first column = requested or default initial state, finiteness, positivity (zero only as underflow), variance >= 0, "
             "volatility = sqrt(variance), dtype, equal buffer shapes, documented key set, no surviving old tensor. Three known findings.", "4 C11")
+T["C17"] = ("reference-model monitor: abstract dtype state machine stepped beside the real instrument, exhaustive operation sequences to bounded depth",
+            "All sequences of length <= 2 (quick) / 3 (thorough) over 14 cast / simulate / register_buffer / default-dtype / rejected-int operations are enumerated for each of "
+            "8 primaries (two constructions) and 3 derivative wrappers, plus random sequences of length 4-10; after every operation declared dtype and every buffer dtype must "
+            "agree with the reference state machine, simulations must be produced in the declared dtype, and derived quantities must carry it.", "4 C17 / appendix B")
 NA = {}
 
 def main():
